@@ -298,7 +298,8 @@ def _drive(case):
                 o, bl(hq), bl(buf), 1 if ret is True else 0, int(h.must_flush_before_shutdown), int(tdb), int(esc), int(ri), ps))
             infos.append({'o': cls, 'buf': buf, 'added': added, 'ret': ret, 'mf': h.must_flush_before_shutdown,
                           'td': tdb, 'esc': esc, 'ri': ri, 'tunnel': bool(h.request.is_https_tunnel),
-                          'hook': (rec.last[0] if rec.last else None), 'pname': rec.pname})
+                          'hook': (rec.last[0] if rec.last else None), 'pname': rec.pname,
+                          'method': None if h.request.method is None else bytes(h.request.method)})
     return out, rec, infos
 
 
@@ -553,6 +554,10 @@ def _oracle(case):
             # a non-protocol exception of plugin code: the executor closes the connection (C05) and the
             # client gets no answer at all.  Judged a defect exactly when known_findings.json records it.
             fid = crash_finding(info)
+            if fid is None:
+                # on_request_complete of the forward proxy plugin (e.g. a host that is not UTF-8, fixed
+                # by e5b7001): must end as a reject with a well-formed response, never as a bare close
+                return 'proxy-request-' + CRASH_SIG
             if fid in RECORDED:
                 return CRASH_SIG + ':' + fid
             if sent:
@@ -617,7 +622,9 @@ def crash_finding(info):
     if info.get('hook') == 'cd':
         return 'D29'       # follow-up bytes handed to on_client_data
     if info.get('pname') == 'HttpProxyPlugin':
-        return 'D27'       # on_request_complete of the proxy plugin (target that is not UTF-8)
+        if info.get('method') == b'':
+            return 'D30'   # request line with an empty method: `assert self.method` in HttpParser.build
+        return None        # anything else in the proxy plugin's on_request_complete: no recorded finding
     return 'D28'           # on_request_complete of the web server plugin (static path with NUL / non-UTF-8)
 
 
@@ -641,7 +648,7 @@ def classify(case, sig):
 
 def finding_witnesses():
     return {
-        'D27': _run([b'GET http://\xff/ HTTP/1.1\r\n\r\n'], 0, 'ok'),
+        'D30': _run([b' http://h/ HTTP/1.1\r\n\r\n'], 0, 'ok'),
         'D28': _run([b'GET /a\x00.txt HTTP/1.1\r\n\r\n'], 2, 'ok'),
         'D29': _run([b'GET http://h/ HTTP/1.1\r\n\r\n', b'POST http://h/ HTTP/1.1\r\nContent-Length: zz\r\n\r\n'], 0, 'ok'),
     }
